@@ -1274,7 +1274,7 @@ NUM_PASS = {'scan': 'ScanningGateRemovalPass',
 def numerical_cases(ck: Check, thorough: bool):
     specs = []
     for kind, k in NUM_QUICK.items():
-        k = k * (30 if thorough else 1)
+        k = k * (24 if thorough else 1)
         for j in range(k):
             specs.append((kind, ck.seed * 100003 + j, thorough and j % 3 == 0))
     ck.rng.shuffle(specs)
